@@ -103,6 +103,9 @@ def _scenario(spec, rnd, d, logdir, res):
             nrec = rnd.randint(60, 200)
             sc[ch] = [[rnd.choice(SIZES[:6] if rnd.random() < .9 else SIZES), rnd.choice([0, 0, 1, 5])] for _ in range(nrec)]
         scripts.append(sc)
+    # a writer whose last output is a burst of exactly two read buffers followed by silence
+    scripts.append({'stdout': [[64, 300], [2048, 0]], 'stderr': [[7, 300], [1024, 0]]})
+    nwriters += 1
     aloop = asyncio.new_event_loop()
     asyncio.set_event_loop(aloop)
     loop = ioloop.IOLoop.current()
@@ -137,8 +140,42 @@ def _scenario(spec, rnd, d, logdir, res):
     def nfds():
         return len(os.listdir('/proc/self/fd'))
 
+    import threading
+    hb = {'t': time.monotonic(), 'max_gap': 0.0, 'blocked': None, 'stop': False}
+
+    def beat():
+        now = time.monotonic()
+        hb['max_gap'] = max(hb['max_gap'], now - hb['t'])
+        hb['t'] = now
+        if not hb['stop']:
+            loop.call_later(0.05, beat)
+
+    def watchdog():
+        # the loop thread cannot report its own blocking: a second thread watches the heartbeat and, when the
+        # loop has been silent for 3 s, records it and kills the workers so that the blocking read sees EOF
+        while not hb['stop']:
+            time.sleep(0.2)
+            gap = time.monotonic() - hb['t']
+            if gap > 3.0:
+                if hb['blocked'] is None:
+                    import traceback
+                    import sys as _sys
+                    fr = _sys._current_frames().get(main_ident)
+                    where = ''.join(traceback.format_stack(fr)[-4:]) if fr else ''
+                    hb['blocked'] = {'gap': gap, 'where': where[-600:]}
+                for p in live.tagged_pids(os.environ['VERIF_LIVE']):
+                    if p != os.getpid():
+                        try:
+                            os.kill(p, 9)
+                        except OSError:
+                            pass
+    main_ident = threading.get_ident()
+    th = threading.Thread(target=watchdog, daemon=True)
+
     @gen.coroutine
     def go():
+        beat()
+        th.start()
         yield arb.start()
         writers = {}
         for w in watchers:
@@ -146,6 +183,8 @@ def _scenario(spec, rnd, d, logdir, res):
                 writers[w.name] = p.pid
         # sibling generations while the writers write
         for g in range(spec['gens']):
+            if hb['blocked'] is not None:
+                break
             act = rnd.choice(['restart', 'reload', 'kill9', 'restart'])
             try:
                 if act == 'restart':
@@ -169,11 +208,16 @@ def _scenario(spec, rnd, d, logdir, res):
             yield gen.sleep(0.02)
         # wait until every writer has finished its script
         t0 = time.time()
-        while time.time() - t0 < 60:
+        while time.time() - t0 < 60 and hb['blocked'] is None:
             donef = [f for f in os.listdir(logdir) if '.written.' in f]
             if len(donef) >= 2 * len(watchers) + 2 * len(dys):
                 break
             yield gen.sleep(0.1)
+        if hb['blocked'] is not None:
+            for x in watchers + [sib] + dys:
+                x.respawn = False
+            yield arb.stop()
+            return
         yield gen.sleep(0.5)
         info['writers'] = writers
         # idle window: a closed pipe must not make its handler spin
@@ -185,8 +229,13 @@ def _scenario(spec, rnd, d, logdir, res):
         info['dy_pids'] = sorted(p for x in dys for p in x.processes)
         yield arb.stop()
     try:
-        loop.run_sync(go, timeout=240)
+        try:
+            loop.run_sync(go, timeout=240)
+        except Exception as e:
+            if hb['blocked'] is None:
+                raise
     finally:
+        hb['stop'] = True
         redirector.Redirector.Handler.__call__ = orig_call
         try:
             loop.close(all_fds=True)
@@ -194,6 +243,12 @@ def _scenario(spec, rnd, d, logdir, res):
             pass
         asyncio.set_event_loop(None)
         ctx.destroy(linger=0)
+    res.hist['max_loop_gap_ms'][int(hb['max_gap'] * 1000) // 50 * 50] += 1
+    if hb['blocked'] is not None:
+        res.violation('C17/event-loop-blocked-in-output-handling',
+                      'the daemon loop did not run for %.1f s while workers were writing (a burst of exactly two read '
+                      'buffers followed by silence); stack of the loop thread: %s' % (hb['blocked']['gap'], hb['blocked']['where']))
+        return
     writers = info.get('writers', {})
     # ---- compare byte for byte
     for i, sc in enumerate(scripts):
